@@ -74,10 +74,6 @@ Proof.
 Qed.
 
 (* ---- applying a list of records to the specification map ---------------------------------- *)
-Definition rec_apply (m : smap) (r : record) : smap :=
-  if r_type r =? rt_Deleted then fst (amap_del m (r_key r)) else fst (amap_put m (r_key r) (r_value r)).
-Definition s_apply_recs (m : smap) (rs : list record) : smap := fold_left rec_apply rs m.
-
 Lemma rec_apply_sorted m r : sorted m -> sorted (rec_apply m r).
 Proof. intros H. unfold rec_apply. destruct (r_type r =? rt_Deleted); [apply amap_del_sorted|apply amap_put_sorted]; exact H. Qed.
 Lemma s_apply_recs_sorted rs : forall m, sorted m -> sorted (s_apply_recs m rs).
@@ -170,6 +166,15 @@ Proof.
     + split; [exact HI2|]. split; [exact HR2|]. split.
       * intros q. rewrite Hrec2. apply Hrec1.
       * rewrite Hcfg2. apply (index_step_files d r p).
+Qed.
+
+Lemma apply_staged_files : forall l d,
+  d_active_id (apply_staged d l) = d_active_id d /\ d_active (apply_staged d l) = d_active d /\
+  d_older (apply_staged d l) = d_older d.
+Proof.
+  induction l as [|[r p] l IH]; intros d; [cbn; auto|]. rewrite apply_staged_cons.
+  destruct (IH (index_step d r p)) as (A & B & C). destruct (index_step_files d r p) as (F1 & F2 & F3 & _).
+  rewrite A, B, C. auto.
 Qed.
 
 (* tagging the staged records with the batch id does not change what they do *)
